@@ -47,6 +47,11 @@ def fnm_sweep(leaf, seed, stats, n):
                     cases.append((fl, p1 + p2, s))
     for _ in range(n):
         p = gen_pattern(rng)
+        if b'[.' in p or b'[=' in p or b'[:' in p:
+            # POSIX collating symbols / equivalence classes / character classes inside a bracket expression
+            # depend on the locale tables of the C library: outside the model (stated in the assumptions)
+            stats['skipped_collating'] = stats.get('skipped_collating', 0) + 1
+            continue
         # strings biased to be near-matches: mutate the pattern's literals
         s = gen_string(rng) if rng.chance(1, 2) else bytes(c for c in p if c not in b'*?[]!\\') + (rng.choice([b'', b'a', b'/', b'/a']))
         cases.append((rng.below(2), p, s))
@@ -185,6 +190,43 @@ def e2e_rules(exe, root, seed, stats):
     a.destroy()
     return problems
 
+def own_files(exe, root, seed, stats):
+    """the tool's own content, temporary and lock files are always skipped, wherever the configuration puts them:
+    content copies in the root AND in nested sub-directories of data disks, a stale .tmp left by a crash"""
+    rng = e2e.Rng(seed)
+    a = e2e.Arr(root, exe, ndisks=2, nparity=1, ncontent=1)
+    depth = rng.choice([0, 1, 2, 3])
+    sub = '/'.join(['meta', 'state', 'x'][:depth])
+    d = rng.choice(a.disks)
+    cdir = os.path.join(a.ddir(d), sub) if sub else a.ddir(d)
+    os.makedirs(cdir, exist_ok=True)
+    cname = rng.choice(['array.content', 'snapraid.content', 'c'])
+    a.extra_conf.append('content %s' % os.path.join(cdir, cname)); a.write_conf()
+    s = sim.Sim(a, rng.fork(), weird_names=False)
+    s.populate(2 + rng.below(3))
+    problems = []
+    cfg = 'content copy %s/%s on data disk %s seed=%d' % (sub or '.', cname, d, seed)
+    for rnd in range(3):
+        r = s.sync()
+        if rnd == 0:
+            # a temporary file left by a crash while saving
+            with open(os.path.join(cdir, cname + '.tmp'), 'wb') as f: f.write(b'stale temporary content')
+        s.fs_create()
+        if r.rc != 0:
+            problems.append(('[own-files] sync %d fails (exit %d) on an array with a %s' % (rnd + 1, r.rc, cfg), r.out[-600:])); break
+        lst = a.cmd('list')
+        own = [t for t in lst.tags if t.startswith('file:') and cname in t]
+        stats['own_file_lists'] = stats.get('own_file_lists', 0) + 1
+        if own:
+            problems.append(('[own-files] the array lists the tool`s own files %s (%s)' % ([t.split(':')[2] for t in own][:3], cfg), '\n'.join(own))); break
+    if not problems:
+        s.sync()
+        c = a.cmd('check')
+        if c.rc != 0:
+            problems.append(('[own-files] check fails (exit %d) on an array with a %s' % (c.rc, cfg), c.out[-600:]))
+    a.destroy()
+    return problems
+
 def main(tier, seed):
     chk = vlib.Check('C18', 'proof', tier, seed)
     chk.assumptions = ['the build links the C library fnmatch(3) (HAVE_FNMATCH); the vendored cmdline/fnmatch.c is compiled separately and compared too, differences between the two are counted, the model is tied to the one in use',
@@ -203,13 +245,15 @@ def main(tier, seed):
         chk.violation('build of /repo failed: ' + str(e)[:300], str(e), False, 'build'); chk.finish()
     stats = {'fnm': 0, 'fnm_match': 0, 'vendored_differs_from_libc': 0, 'filter': 0, 'filter_results': {}, 'e2e_files': 0, 'selection_files': 0}
     nf, nr, ne = (6000, 6000, 24) if tier == 'quick' else (80000, 80000, 200)
-    jobs = [('fnm', i) for i in range(4)] + [('flt', i) for i in range(4)] + [('e2e', i) for i in range(ne)]
+    jobs = [('fnm', i) for i in range(4)] + [('flt', i) for i in range(4)] + [('e2e', i) for i in range(ne)] + [('own', i) for i in range(8 if tier == 'quick' else 60)]
     def job(j):
         kind, i = j
         if kind == 'fnm':
             return fnm_sweep(leaf, seed * 1000 + i, stats, nf // 4)
         if kind == 'flt':
             return filter_sweep(leaf, seed * 1000 + 100 + i, stats, nr // 4)
+        if kind == 'own':
+            return own_files(exe, os.path.join(vlib.scratch(), 'o%d' % i), seed * 1000 + 600 + i, stats)
         return e2e_rules(exe, os.path.join(vlib.scratch(), 'r%d' % i), seed * 1000 + 200 + i, stats)
     with ThreadPoolExecutor(vlib.NCPU) as ex:
         res = list(ex.map(job, jobs))
@@ -224,7 +268,7 @@ def main(tier, seed):
             chk.violation('C18 static obligation failed: ' + o[0], o[0] + '\n' + o[2], False, 'static')
     chk.evaluations = stats['fnm'] + stats['filter'] + stats['e2e_files']
     chk.distinct = stats['fnm_match'] + stats['filter']
-    chk.rule = ('FNM: all pairs of 1-2 pattern atoms x 10 short strings x both flag values + %d seeded (pattern, string) pairs over {a b c / * ? [ ] ! - \\ . x} incl. well-formed brackets, ranges, escapes, near-match strings: libc fnmatch as linked into the binary vs the Lean model (vendored fnmatch.c also run). RULES: %d seeded rule lists (file/dir, rooted/unrooted, globs, escapes, malformed) x paths x {file, dir-descent, empty dir}: filter_path/filter_subdir/filter_emptydir of the binary vs the Lean model incl. rejected rules. E2E: %d arrays with rules in the configuration: list after sync must equal the model; fix -f must restore exactly the selected files' % (nf, nr, ne))
+    chk.rule = ('FNM: all pairs of 1-2 pattern atoms x 10 short strings x both flag values + %d seeded (pattern, string) pairs over {a b c / * ? [ ] ! - \\ . x} incl. well-formed brackets, ranges, escapes, near-match strings: libc fnmatch as linked into the binary vs the Lean model (vendored fnmatch.c also run). RULES: %d seeded rule lists (file/dir, rooted/unrooted, globs, escapes, malformed) x paths x {file, dir-descent, empty dir}: filter_path/filter_subdir/filter_emptydir of the binary vs the Lean model incl. rejected rules. E2E: %d arrays with rules in the configuration: list after sync must equal the model; fix -f must restore exactly the selected files; arrays with a content copy in the root or a nested sub-directory of a data disk plus a stale .tmp: never listed, sync and check succeed' % (nf, nr, ne))
     chk.samples = [dict(stats)]
     chk.corr['FILTER'] = dict(stats)
     chk.finish()
